@@ -195,6 +195,27 @@ def run(ctx: Ctx) -> None:
                               losses=(i % 4 == 0), fan_out=True, embedding=(i % 5 == 0), plain_adds=True,
                               side_paths=(i % 2 == 0))
 
+    # ---------------- call history: an earlier unit_scale() call in this process supplied its own replacement; it must
+    #                  hold for that call only (everything below runs after it)
+    def earlier_gelu(x, approximate="none"):
+        return x * torch.sigmoid(1.702 * x)
+
+    class Tiny(torch.nn.Module):
+        def __init__(self) -> None:
+            super().__init__()
+            self.l = torch.nn.Linear(4, 4)
+
+        def forward(self, x):  # type: ignore[no-untyped-def]
+            return F.gelu(self.l(x))
+
+    map_before = dict(U.torch_map)
+    with ctx.guard("C16:earlier-call", {"history": "unit_scale(Tiny, replace={F.gelu: f})"}):
+        unit_scale(Tiny(), replace={F.gelu: earlier_gelu})(torch.randn(2, 4))
+    if dict(U.torch_map) != map_before:
+        ctx.violation("C16:replace-leaks", "a replacement supplied to one unit_scale() call changed the built-in map used by "
+                      "later calls", {"history": "unit_scale(Tiny, replace={F.gelu: f}); then any unit_scale(m)"},
+                      sorted(fg.target_name(k) for k in U.torch_map if U.torch_map[k] is not map_before.get(k)))
+
     # ---------------- (a) the backend called directly on FX graphs vs the model
     n_direct = 120 if quick else 4000
     mreqs, mcases = [], []
